@@ -50,7 +50,7 @@ var properties = []Property{
 		NotDecided:  "that patched offsets are the right ones (values computed while Prepare runs), order of arms, element order of foreach.",
 		Assumptions: commonAssumptions},
 	{ID: "C03", Title: "optimizer transparency", Level: "other",
-		Rules:       []string{"R-JOINPH", "R-JUMPSET", "R-EMITLEN", "R-NOINJECT"},
+		Rules:       []string{"R-JOINPH", "R-FOLDAGREE", "R-JUMPSET", "R-EMITLEN", "R-NOINJECT", "R-FLAGONLY"},
 		Explanation: "Structural soundness conditions of the peephole optimizer: every forward label is outside every folding window (placeholder or preceded by an unconditional jump) and the folder resets its window on unnamed opcodes; jump sets agree between VM, NOP removal, dead-code pass and compiler; operand presence agrees; the optimizer switch is not script-visible.",
 		NotDecided:  "observational equivalence of optimized and unoptimized programs in general.",
 		Assumptions: commonAssumptions},
@@ -134,6 +134,11 @@ var properties = []Property{
 		Rules:       []string{"R-ARGGUARD", "R-PUREARGS", "R-NUMORDER"},
 		Explanation: "Narrow claim. Totality on wrong arity/type: every args[k] and every unchecked assertion of an argument is guarded by a dominating length / Type() test (abstract interpretation over length sets and type facts, with helper functions checked at their call sites). Inputs unchanged: no built-in stores into, sorts in place or mutates anything reachable from its arguments. min/max/between: no ordering by printed form is reachable when both arguments are numbers, the numeric helper computes left < right, min returns the smaller and max the larger argument, between is false exactly when v < lo or hi < v.",
 		NotDecided:  "every value-level contract: join(split(s,d),d) == s, sort's permutation property, conversions, time decomposition, string helpers.",
+		Assumptions: commonAssumptions},
+	{ID: "C20", Title: "front ends", Level: "other",
+		Rules:       []string{"R-RUNEXEC", "R-ENVSHARE", "R-VOIDPUSH", "R-FLAGONLY", "R-NOINJECT", "R-CTXFLOW", "R-DRIVER"},
+		Explanation: "Narrow claim. Run is True() of Execute's object with Execute's error; the API methods pass their own arguments to the one environment the machine was built on; call results are pushed exactly when not void; the NoOptimize flag guards only the optimizer switch; the library injects no variables; the context flows SetContext → Prepare → VM; the command-line driver sets the context before Prepare, plumbs -no-optimizer and the decoded JSON document, reports type/value/truth of Execute's result and recovers panics.",
+		NotDecided:  "argument order of host calls (index arithmetic over run-time counts), what the driver prints character by character, the lex/parse sub-commands' output.",
 		Assumptions: commonAssumptions},
 	{ID: "C18", Title: "well-formed code", Level: "other",
 		Rules:       []string{"R-EMITLEN", "R-HANDLERS", "R-PATCHALL", "R-JOINPH", "R-JUMPSET", "R-OPBOUNDARY", "R-NARROW"},
